@@ -13,17 +13,18 @@ limit 250, compiled-size limit 10 MiB.
 `parse_set_class_open`, `parse_set_class_range`, `parse_set_class_item`), with the explicit group
 stack of the crate; `parse` adds `NestLimiter` (`heightIn`) and the size check.
 
-THE SUBSET. Inside the model: literals (any scalar value), `.`, bracketed classes with literals,
-ranges, `^` negation, the leading `]` / `-` rules and Perl classes inside; `\d \s \w \D \S \W`
-(Unicode: Tables.lean); every single-char escape (`\.`, `\/`, …, `\a \f \t \n \r \v`); groups `( )`
+THE SUBSET. Inside the model: literals (any scalar value), `.`; bracketed classes with literals,
+ranges, `^` negation, the leading `]` / `-` rules, Perl classes and POSIX classes `[:alpha:]` /
+`[:^alpha:]` inside; `\d \s \w \D \S \W` (Unicode: Tables.lean); every single-char escape (`\.`, `\/`,
+…, `\a \f \t \n \r \v`) and the hex escapes `\xNN \uNNNN \UNNNNNNNN \x{N…} \u{N…} \U{N…}`; groups `( )`
 and `(?: )`; alternation; `? * + {n} {n,} {n,m}` each with an optional lazy `?` (irrelevant for
-`is_match`) and with the white space `parse_decimal` skips; `^ $ \A \z \b \B`.
+`is_match`) and with the white space `parse_decimal` skips; every assertion: `^ $ \A \z \b \B \< \>
+\b{start} \b{end} \b{start-half} \b{end-half}`.
 Every error the crate answers on the way is an error kind here (`RegexErr`, the names of
 `ast::ErrorKind`). VALID OR INVALID SYNTAX OUTSIDE THE SUBSET IS NEVER GUESSED: the parser answers
 `unsupported` at the first char where it would have to leave the subset – flags `(?i)` `(?i:…)`,
-named groups, `\x \u \U` hex escapes, `\p \P`, `\< \>`, `\b{…}` word-boundary names, a `[` inside a
-class (nested classes, `[:alpha:]`), the class operators `&& -- ~~` – and, after a successful parse,
-for a pattern whose compiled size MIGHT exceed the 10 MiB limit (`cost`, a deliberately generous upper
+named groups, `\p \P`, a nested class `[a[b]]`, the class operators `&& -- ~~` – and, after a
+successful parse, for a pattern whose compiled size MIGHT exceed the 10 MiB limit (`cost`, a deliberately generous upper
 estimate of regex-automata's NFA memory: measured per construct on the real crate, doubled, against
 less than half the limit). An `unsupported` answer is "no claim"; every other answer is compared with
 the real crate by harness/c16/src/regexsyn.rs.
@@ -37,8 +38,8 @@ abbrev Chars := List Nat
 abbrev Bytes := List Nat
 
 /-- `regex_syntax::ast::ErrorKind` as far as the subset can meet it, plus `unsupported` (outside the
-subset: no claim) and `fuel` (the loop counter of this model ran out: unreachable, see
-Lemmas/RegexParse.lean) -/
+subset: no claim) and `fuel` (the loop counter of this model ran out: unreachable:
+Lemmas/RegexTotal.lean) -/
 inductive RegexErr where
   | groupUnclosed                  -- "unclosed group"
   | groupUnopened                  -- "unopened group"
@@ -54,7 +55,12 @@ inductive RegexErr where
   | decimalInvalid                 -- "decimal literal invalid"
   | escapeUnexpectedEof            -- "incomplete escape sequence, reached end of pattern prematurely"
   | escapeUnrecognized             -- "unrecognized escape sequence"
+  | escapeHexEmpty                 -- "hexadecimal literal empty"
+  | escapeHexInvalid               -- "hexadecimal literal is not a Unicode scalar value"
+  | escapeHexInvalidDigit          -- "invalid hexadecimal digit"
   | unsupportedBackreference       -- "backreferences are not supported"
+  | specialWordBoundaryUnclosed    -- "special word boundary assertion is either unclosed or contains an invalid character"
+  | specialWordBoundaryUnrecognized -- "unrecognized special word boundary assertion, valid choices are: start, end, start-half or end-half"
   | specialWordOrRepUnexpectedEof  -- "found either the beginning of a special word boundary or a bounded repetition on a \b with an opening brace, but no closing brace"
   | nestLimitExceeded              -- "exceed the maximum number of nested parentheses/brackets (250)"
   | unsupported
@@ -69,12 +75,14 @@ deriving DecidableEq, Repr
 inductive ClassItem where
   | range (lo hi : Nat)
   | perl (k : PerlKind) (neg : Bool)
+  | ascii (ranges : List (Nat × Nat)) (neg : Bool)     -- `[:alpha:]` / `[:^alpha:]`: `hir::translate::ascii_class`
 deriving DecidableEq, Repr
 
 /-- `hir::Look` in the subset. `^` and `$` are `Start` / `End` because the multi-line flag is off
 (hir/translate.rs: `AssertionKind::StartLine` ↦ `Look::Start` unless `m`) -/
 inductive Look where
   | startText | endText | wordB | notWordB
+  | wordStart | wordEnd | wordStartHalf | wordEndHalf   -- `\b{start}` = `\<`, `\b{end}` = `\>`, `\b{start-half}`, `\b{end-half}`
 deriving DecidableEq, Repr
 
 /-- `ast::Ast` in the subset. `Concat` / `Alternation` of n ≥ 2 items are right-nested `cat` /
@@ -93,6 +101,14 @@ inductive Ast where
   | alt (a b : Ast)
   | rep (lo : Nat) (hi : Option Nat) (a : Ast)
 deriving DecidableEq, Repr
+
+/-- equality of parser answers is decidable (for closed examples) -/
+instance : DecidableEq (Except RegexErr Ast) := fun x y =>
+  match x, y with
+  | .ok a, .ok b => if h : a = b then isTrue (by rw [h]) else isFalse (fun e => h (by cases e; rfl))
+  | .error a, .error b => if h : a = b then isTrue (by rw [h]) else isFalse (fun e => h (by cases e; rfl))
+  | .ok _, .error _ => isFalse (fun e => by cases e)
+  | .error _, .ok _ => isFalse (fun e => by cases e)
 
 /-- `Primitive`: what `parse_escape` / `parse_set_class_item` return -/
 inductive Prim where
@@ -125,42 +141,123 @@ def isSpace (c : Nat) : Bool := inTable spaceTable c
 
 def isDigit (c : Nat) : Bool := 48 ≤ c && c ≤ 57
 
+/-- `is_hex` -/
+def isHex (c : Nat) : Bool := isDigit c || (97 ≤ c && c ≤ 102) || (65 ≤ c && c ≤ 70)
+
+def hexDigitVal (c : Nat) : Nat := if isDigit c then c - 48 else if 97 ≤ c then c - 87 else c - 55
+
+/-- `u32::from_str_radix(hex, 16)` (as a natural number: too large is "not a scalar value" anyway) -/
+def hexValue (ds : Chars) : Nat := ds.foldl (fun n d => n * 16 + hexDigitVal d) 0
+
+/-- a Unicode scalar value (`char::from_u32` succeeds) -/
+def isScalar (c : Nat) : Bool := c < 55296 || (57344 ≤ c && c < 1114112)
+
 /-- `is_valid_char` of `maybe_parse_special_word_boundary`: `[-A-Za-z]` -/
 def isWbNameChar (c : Nat) : Bool := (65 ≤ c && c ≤ 90) || (97 ≤ c && c ≤ 122) || c = 45
 
 /-! ### escapes (`parse_escape`) -/
 
+/-- `parse_escape` after the backslash, on the char `c`: the one-char escapes -/
+def escapePrim (c : Nat) : Except RegexErr Prim :=
+  if isDigit c then .error .unsupportedBackreference          -- octal is off: `\0` … `\9`
+  else if c = 112 || c = 80 then .error .unsupported             -- \p \P
+  else if c = 100 then .ok (.perl .digit false)
+  else if c = 68 then .ok (.perl .digit true)
+  else if c = 115 then .ok (.perl .space false)
+  else if c = 83 then .ok (.perl .space true)
+  else if c = 119 then .ok (.perl .word false)
+  else if c = 87 then .ok (.perl .word true)
+  else if isMeta c then .ok (.lit c)
+  else if isEscapeable c then .ok (.lit c)
+  else if c = 97 then .ok (.lit 7)                            -- \a
+  else if c = 102 then .ok (.lit 12)                          -- \f
+  else if c = 116 then .ok (.lit 9)                           -- \t
+  else if c = 110 then .ok (.lit 10)                          -- \n
+  else if c = 114 then .ok (.lit 13)                          -- \r
+  else if c = 118 then .ok (.lit 11)                          -- \v
+  else if c = 65 then .ok (.look .startText)                  -- \A
+  else if c = 122 then .ok (.look .endText)                   -- \z
+  else if c = 66 then .ok (.look .notWordB)                   -- \B
+  else if c = 60 then .ok (.look .wordStart)                  -- \<
+  else if c = 62 then .ok (.look .wordEnd)                    -- \>
+  else .error .escapeUnrecognized
+
+/-- `parse_hex_digits`: exactly `n` hex digits (2 after `\x`, 4 after `\u`, 8 after `\U`) -/
+def takeHexN : Nat → Chars → Except RegexErr (Chars × Chars)
+  | 0, r => .ok ([], r)
+  | _ + 1, [] => .error .escapeUnexpectedEof
+  | n + 1, c :: r =>
+    if isHex c then
+      match takeHexN n r with
+      | .ok (ds, r') => .ok (c :: ds, r')
+      | .error e => .error e
+    else .error .escapeHexInvalidDigit
+
+/-- `parse_hex_brace`, standing right after the `{`: the digits up to the `}` -/
+def takeHexBrace : Chars → Except RegexErr (Chars × Chars)
+  | [] => .error .escapeUnexpectedEof
+  | c :: r =>
+    if c = 125 then .ok ([], r)
+    else if isHex c then
+      match takeHexBrace r with
+      | .ok (ds, r') => .ok (c :: ds, r')
+      | .error e => .error e
+    else .error .escapeHexInvalidDigit
+
+/-- the digits name a scalar value, or `EscapeHexInvalid` -/
+def hexLit (ds : Chars) (r : Chars) : Except RegexErr (Prim × Chars) :=
+  if isScalar (hexValue ds) then .ok (.lit (hexValue ds), r) else .error .escapeHexInvalid
+
+/-- `parse_hex`, standing right after the `x` / `u` / `U`: `\xNN` `\uNNNN` `\UNNNNNNNN` or `\x{N…}` -/
+def parseHex (n : Nat) : Chars → Except RegexErr (Prim × Chars)
+  | [] => .error .escapeUnexpectedEof
+  | c :: r =>
+    if c = 123 then
+      match takeHexBrace r with
+      | .error e => .error e
+      | .ok (ds, r') => if ds.isEmpty then .error .escapeHexEmpty else hexLit ds r'
+    else
+      match takeHexN n (c :: r) with
+      | .error e => .error e
+      | .ok (ds, r') => hexLit ds r'
+
+/-- the leading chars of `[-A-Za-z]` and the rest -/
+def takeWbName : Chars → Chars × Chars
+  | [] => ([], [])
+  | c :: r => if isWbNameChar c then ((takeWbName r).1.cons c, (takeWbName r).2) else ([], c :: r)
+
+/-- `\b` and `maybe_parse_special_word_boundary`, standing right after the `b`: `\b{start}` `\b{end}`
+`\b{start-half}` `\b{end-half}`; a `{` that is not followed by a char of `[-A-Za-z]` is left for the
+counted repetition (`\b{2}`) -/
+def wordBoundary (r : Chars) : Except RegexErr (Prim × Chars) :=
+  match r with
+  | 123 :: [] => .error .specialWordOrRepUnexpectedEof
+  | 123 :: d :: t =>
+    if isWbNameChar d then
+      match (takeWbName (d :: t)).2 with
+      | 125 :: r' =>
+        let name := (takeWbName (d :: t)).1
+        if name = [115, 116, 97, 114, 116] then .ok (.look .wordStart, r')                                  -- start
+        else if name = [101, 110, 100] then .ok (.look .wordEnd, r')                                         -- end
+        else if name = [115, 116, 97, 114, 116, 45, 104, 97, 108, 102] then .ok (.look .wordStartHalf, r')  -- start-half
+        else if name = [101, 110, 100, 45, 104, 97, 108, 102] then .ok (.look .wordEndHalf, r')             -- end-half
+        else .error .specialWordBoundaryUnrecognized
+      | _ => .error .specialWordBoundaryUnclosed
+    else .ok (.look .wordB, r)
+  | _ => .ok (.look .wordB, r)
+
 /-- `parse_escape`, the parser standing right AFTER the backslash: the primitive and the rest -/
 def parseEscape : Chars → Except RegexErr (Prim × Chars)
   | [] => .error .escapeUnexpectedEof
   | c :: r =>
-    if isDigit c then .error .unsupportedBackreference          -- octal is off: `\0` … `\9`
-    else if c = 120 || c = 117 || c = 85 then .error .unsupported  -- \x \u \U
-    else if c = 112 || c = 80 then .error .unsupported             -- \p \P
-    else if c = 100 then .ok (.perl .digit false, r)
-    else if c = 68 then .ok (.perl .digit true, r)
-    else if c = 115 then .ok (.perl .space false, r)
-    else if c = 83 then .ok (.perl .space true, r)
-    else if c = 119 then .ok (.perl .word false, r)
-    else if c = 87 then .ok (.perl .word true, r)
-    else if isMeta c then .ok (.lit c, r)
-    else if isEscapeable c then .ok (.lit c, r)
-    else if c = 97 then .ok (.lit 7, r)                          -- \a
-    else if c = 102 then .ok (.lit 12, r)                        -- \f
-    else if c = 116 then .ok (.lit 9, r)                         -- \t
-    else if c = 110 then .ok (.lit 10, r)                        -- \n
-    else if c = 114 then .ok (.lit 13, r)                        -- \r
-    else if c = 118 then .ok (.lit 11, r)                        -- \v
-    else if c = 65 then .ok (.look .startText, r)                -- \A
-    else if c = 122 then .ok (.look .endText, r)                 -- \z
-    else if c = 98 then                                           -- \b, then `maybe_parse_special_word_boundary`
-      match r with
-      | 123 :: [] => .error .specialWordOrRepUnexpectedEof
-      | 123 :: d :: _ => if isWbNameChar d then .error .unsupported else .ok (.look .wordB, r)
-      | _ => .ok (.look .wordB, r)
-    else if c = 66 then .ok (.look .notWordB, r)                 -- \B
-    else if c = 60 || c = 62 then .error .unsupported            -- \< \>
-    else .error .escapeUnrecognized
+    if c = 120 then parseHex 2 r                                  -- \x
+    else if c = 117 then parseHex 4 r                             -- \u
+    else if c = 85 then parseHex 8 r                              -- \U
+    else if c = 98 then wordBoundary r                            -- \b …
+    else
+      match escapePrim c with
+      | .ok p => .ok (p, r)
+      | .error e => .error e
 
 /-! ### counted repetition (`parse_counted_repetition`, `parse_decimal`) -/
 
@@ -190,40 +287,42 @@ def dropLazy : Chars → Chars
   | 63 :: r => r
   | r => r
 
+/-- the end of `parse_counted_repetition`: the closing brace, an optional `?`, then the validity of
+the range (`RepetitionRange::is_valid`) -/
+def closeCount (lo : Nat) (hi : Option Nat) (r : Chars) : Except RegexErr ((Nat × Option Nat) × Chars) :=
+  match r with
+  | 125 :: t =>
+    if (match hi with | some m => decide (lo ≤ m) | none => true) then .ok ((lo, hi), dropLazy t)
+    else .error .repetitionCountInvalid
+  | _ => .error .repetitionCountUnclosed
+
 /-- `parse_counted_repetition`, the parser standing right AFTER the `{` (the operand was already
 popped): bounds and the rest -/
 def parseCounted (s : Chars) : Except RegexErr ((Nat × Option Nat) × Chars) :=
   if s.isEmpty then .error .repetitionCountUnclosed
   else
-    let (start, r1) := parseDecimal s
-    match r1 with
+    match (parseDecimal s).2 with
     | [] => .error .repetitionCountUnclosed
     | c1 :: t1 =>
-      let closing (lo : Nat) (hi : Option Nat) (r : Chars) : Except RegexErr ((Nat × Option Nat) × Chars) :=
-        match r with
-        | 125 :: t =>
-          if (match hi with | some m => decide (lo ≤ m) | none => true) then .ok ((lo, hi), dropLazy t)
-          else .error .repetitionCountInvalid
-        | _ => .error .repetitionCountUnclosed
       if c1 = 44 then
         match t1 with
         | [] => .error .repetitionCountUnclosed
         | c2 :: _ =>
           if c2 ≠ 125 then
-            match start with
+            match (parseDecimal s).1 with
             | .error e => .error e
             | .ok lo =>
-              match parseDecimal t1 with
-              | (.error e, _) => .error e
-              | (.ok hi, r3) => closing lo (some hi) r3
+              match (parseDecimal t1).1 with
+              | .error e => .error e
+              | .ok hi => closeCount lo (some hi) (parseDecimal t1).2
           else
-            match start with
+            match (parseDecimal s).1 with
             | .error e => .error e
-            | .ok lo => closing lo none t1
+            | .ok lo => closeCount lo none t1
       else
-        match start with
+        match (parseDecimal s).1 with
         | .error e => .error e
-        | .ok n => closing n (some n) r1
+        | .ok n => closeCount n (some n) (c1 :: t1)
 
 /-! ### bracketed classes (`parse_set_class` …) -/
 
@@ -267,12 +366,57 @@ def classRange (s : Chars) : Except RegexErr (ClassItem × Chars) :=
             | .error e => .error e
             | .ok hi => if lo ≤ hi then .ok (.range lo hi, r3) else .error .classRangeInvalid
 
+/-- `ClassAsciiKind::from_name` and `hir::translate::ascii_class`: the ranges of a POSIX class name -/
+def asciiClassRanges (name : Chars) : Option (List (Nat × Nat)) :=
+  if name = [97, 108, 110, 117, 109] then some [(48, 57), (65, 90), (97, 122)]                 -- alnum
+  else if name = [97, 108, 112, 104, 97] then some [(65, 90), (97, 122)]                      -- alpha
+  else if name = [97, 115, 99, 105, 105] then some [(0, 127)]                                 -- ascii
+  else if name = [98, 108, 97, 110, 107] then some [(9, 9), (32, 32)]                         -- blank
+  else if name = [99, 110, 116, 114, 108] then some [(0, 31), (127, 127)]                     -- cntrl
+  else if name = [100, 105, 103, 105, 116] then some [(48, 57)]                               -- digit
+  else if name = [103, 114, 97, 112, 104] then some [(33, 126)]                               -- graph
+  else if name = [108, 111, 119, 101, 114] then some [(97, 122)]                              -- lower
+  else if name = [112, 114, 105, 110, 116] then some [(32, 126)]                              -- print
+  else if name = [112, 117, 110, 99, 116] then some [(33, 47), (58, 64), (91, 96), (123, 126)] -- punct
+  else if name = [115, 112, 97, 99, 101] then some [(9, 9), (10, 10), (11, 11), (12, 12), (13, 13), (32, 32)]  -- space
+  else if name = [117, 112, 112, 101, 114] then some [(65, 90)]                               -- upper
+  else if name = [119, 111, 114, 100] then some [(48, 57), (65, 90), (95, 95), (97, 122)]     -- word
+  else if name = [120, 100, 105, 103, 105, 116] then some [(48, 57), (65, 70), (97, 102)]     -- xdigit
+  else none
+
+/-- the chars before the first `:` and the rest (from that `:` on) -/
+def takeUntilColon : Chars → Chars × Chars
+  | [] => ([], [])
+  | c :: r => if c = 58 then ([], c :: r) else ((takeUntilColon r).1.cons c, (takeUntilColon r).2)
+
+/-- an optional leading `^` -/
+def stripCaret : Chars → Bool × Chars
+  | 94 :: u => (true, u)
+  | u => (false, u)
+
+/-- `maybe_parse_ascii_class`, standing right after a `[` INSIDE a class: `:name:]` / `:^name:]` with one
+of the fourteen names. Everything else is a nested class (or the text the crate then re-reads as
+one): outside the subset. -/
+def asciiClass (s : Chars) : Except RegexErr (ClassItem × Chars) :=
+  match s with
+  | 58 :: t =>
+    match (takeUntilColon (stripCaret t).2).2 with
+    | 58 :: 93 :: r =>
+      match asciiClassRanges (takeUntilColon (stripCaret t).2).1 with
+      | some rs => .ok (.ascii rs (stripCaret t).1, r)
+      | none => .error .unsupported
+    | _ => .error .unsupported
+  | _ => .error .unsupported
+
 /-- the loop of `parse_set_class` after the opening; `items` reversed -/
 def classLoop : Nat → List ClassItem → Chars → Except RegexErr (List ClassItem × Chars)
   | 0, _, _ => .error .fuel
   | _ + 1, _, [] => .error .classUnclosed
   | f + 1, items, c :: r =>
-    if c = 91 then .error .unsupported                                -- nested class / `[:name:]`
+    if c = 91 then                                                    -- `[:name:]`; a nested class is outside the subset
+      match asciiClass r with
+      | .error e => .error e
+      | .ok (it, r') => classLoop f (it :: items) r'
     else if c = 93 then .ok (items.reverse, r)
     else if c = 38 && r.head? = some 38 then .error .unsupported      -- &&
     else if c = 45 && r.head? = some 45 then .error .unsupported      -- --
@@ -452,6 +596,7 @@ def perlCost : PerlKind → Nat
 def itemCost : ClassItem → Nat
   | .range _ _ => 4000
   | .perl k _ => perlCost k
+  | .ascii rs _ => 4000 * (rs.length + 1)
 
 /-- a generous upper estimate, in bytes, of what the construct adds to the two Thompson NFAs that
 `Regex::new` compiles (forward and reverse; `e{n}` / `e{m,n}` / `e{n,}` compile `e` max(n,1)
@@ -483,3 +628,4 @@ def parse (p : Chars) : Except RegexErr Ast :=
     else .ok a
 
 end Grcov.Regex
+
